@@ -13,6 +13,7 @@ From NB Require Import Merge.Decisions.
 From NB Require Import Merge.Apply.
 From NB Require Import Merge.MergeGeneric.
 From NB Require Import Merge.MergeProofs.
+From NB Require Import Merge.MergeSmallScope.
 From NB Require Import Gen.MergeFacts.
 Import ListNotations.
 
@@ -51,6 +52,42 @@ Theorem merge_onesided_example :
                /\ decs <> [] /\ apply_decisions (JArr [JInt 1; JInt 2]) decs = Ok (JArr [JInt 2]).
 Proof. exact onesided_nonvacuous. Qed.
 Print Assumptions merge_onesided_example.
+
+(* the full statement of the three laws (no conflict AND merged = X), with X reached through the model's own differ,
+   on every pair of distinct lists of length <= 3 over {1,2,3} and every pair of distinct objects over x,y,z -> {1,2,3} *)
+Theorem merge_laws_small_scope :
+  (forall b x, In b (small_lists 3) -> In x (small_lists 3) -> b <> x ->
+               laws chunks_guard entry_eq_strict conflict_assert_strict b x)
+  /\ (forall b x, In b small_objects -> In x small_objects -> b <> x ->
+                  laws chunks_guard entry_eq_strict conflict_assert_strict b x).
+Proof. exact laws_small_scope. Qed.
+Print Assumptions merge_laws_small_scope.
+
+(* the same on two-level documents (decisions pushed down common paths, sorted deeper-first, applied group by group):
+   all pairs of distinct lists (len <= 2) of lists (len <= 2 over {1,2}) and of objects x,y -> such lists *)
+Theorem merge_laws_small_scope_nested :
+  (forall b x, In b nested_lists -> In x nested_lists -> b <> x ->
+               laws chunks_guard entry_eq_strict conflict_assert_strict b x)
+  /\ (forall b x, In b nested_objects -> In x nested_objects -> b <> x ->
+                  laws chunks_guard entry_eq_strict conflict_assert_strict b x).
+Proof. exact laws_small_scope_nested. Qed.
+Print Assumptions merge_laws_small_scope_nested.
+
+(* side symmetry (same verdict; same merged document when conflict-free; same-position inserts excluded) on every
+   triple of lists of length <= 2 over {1,2,3} and of objects over x,y -> {1,2,3} *)
+Theorem merge_symmetric_small_scope_partial :
+  (forall b l r, In b (small_lists 2) -> In l (small_lists 2) -> In r (small_lists 2) ->
+                 symmetric_on chunks_guard entry_eq_strict conflict_assert_strict b l r = true)
+  /\ (forall b l r, In b small_objects2 -> In l small_objects2 -> In r small_objects2 ->
+                    symmetric_on chunks_guard entry_eq_strict conflict_assert_strict b l r = true).
+Proof. exact (conj symmetry_small_scope symmetry_small_scope_objects). Qed.
+Print Assumptions merge_symmetric_small_scope_partial.
+
+Theorem merge_symmetric_small_scope_nested_partial :
+  forall b l r, In b nested_objects1 -> In l nested_objects1 -> In r nested_objects1 ->
+                symmetric_on chunks_guard entry_eq_strict conflict_assert_strict b l r = true.
+Proof. exact symmetry_small_scope_nested. Qed.
+Print Assumptions merge_symmetric_small_scope_nested_partial.
 
 (* ---- The two theorems below follow the generated source facts either way (no edit needed after a repair).
    On the current source (chunks_guard = GuardListTruthy, entry_eq_strict = false) they are REFUTATIONS:
